@@ -202,6 +202,8 @@ pub struct StreamOpts {
     pub echo_fuzz: bool,
     /// scale factor (percent) on the client packet rate
     pub rate_pct: u64,
+    /// uplinks are AF_UNIX datagram socket pairs with a minimal send buffer (short sendmmsg results)
+    pub short_sends: bool,
 }
 
 pub struct Driver {
@@ -473,6 +475,13 @@ pub fn run_stream(opts: StreamOpts, rng: &mut Rng, mons: &mut [&mut dyn Monitor]
     if d.sim.conns.len() != opts.n_links {
         rep.inconclusive(format!("harness I/O: only {} of {} uplinks could be created", d.sim.conns.len(), opts.n_links));
         return false;
+    }
+    if opts.short_sends {
+        if !d.sim.use_short_send_sockets() {
+            rep.inconclusive("harness I/O: AF_UNIX socket pairs for the short-send lane could not be created".into());
+            return false;
+        }
+        rep.count("sim.short_send_sessions");
     }
     if !d.establish(rng, mons, rep) {
         rep.count("sim.establish_failed");
